@@ -4,6 +4,8 @@ import Firebolt.Generated.Skeleton
 import Firebolt.Expected.Skeleton
 import Firebolt.Generated.Source
 import Firebolt.Expected.Source
+import Firebolt.Generated.Closure
+import Firebolt.Expected.Closure
 /-!
 # C19 — Parallel recovery never exceeds its configured rate
 
@@ -113,5 +115,13 @@ example : run 10 20 ⟨20, 0, 0⟩ [.grant, .grant, .advance 10, .grant] = some 
 /-! ### the functions this model was transcribed from are unchanged (regenerated from /repo on every run) -/
 theorem source_newRecoveryConsumer : GeneratedSrc.newRecoveryConsumer = ExpectedSrc.newRecoveryConsumer := by rfl
 theorem source_rcRecoverSingleEvent : GeneratedSrc.rcRecoverSingleEvent = ExpectedSrc.rcRecoverSingleEvent := by rfl
+
+/-! ### the recovery consumer Setup builds keeps the context NewRecoveryConsumer gave it; a revocation cancels only the assignment context of the main consumer -/
+theorem source_kcSetup : GeneratedSrc.kcSetup = ExpectedSrc.kcSetup := by rfl
+theorem source_revokePartitionAssignments : GeneratedSrc.revokePartitionAssignments = ExpectedSrc.revokePartitionAssignments := by rfl
+
+/-! ### influence closure: the pinned functions, and every function of the repository that writes a struct field or package
+variable they read, are unchanged (digests regenerated from /repo on every run; a difference names the functions) -/
+theorem closure_unchanged : GeneratedClo.C19 = ExpectedClo.C19 := by rfl
 
 end Firebolt.C19
